@@ -6,5 +6,14 @@ class Plugin(HistPlugin):
     id = 'C05'
     extra_import = 'HistProps HistPropCheck'
     check_fn = 'c05_check'
-    FINDING_BITS = 1 | 4 | 8
-    UNDECIDED_BITS = 2 | 16 | 32
+    weights = {'insert_one': 8, 'insert_many': 3, 'update': 6, 'replace': 4, 'delete': 2, 'find': 2,
+               'fam': 3, 'bulk': 2, 'create_index': 1}
+    rule = ('histories of 2-8 operations over 4 scalar and 4 embedded-document _ids, with deliberately '
+            'failing operations (duplicate inserts, _id changes through $set/$unset/$rename/$inc, '
+            'replacements carrying another _id), inserts without _id, upserts, find-and-modify, bulk '
+            'writes and lookups by _id; after every operation the complete store (keys and documents), '
+            'the outcome and the index information are compared with the model, and the C05 predicate '
+            '(HistProps.c05_step) is evaluated on the observed trace. Non-trivial = at least two '
+            'writes of which one fails or generates an _id; distinct by canonical JSON.')
+    FINDING_BITS = 4 | 8
+    UNDECIDED_BITS = 1 | 2 | 16
